@@ -91,18 +91,18 @@ package tls
 //@ func tls.verifyGenerateCertificatesRequest
 //@   requires nodeInfo != nil && req != nil
 //@   nopanic[C05,C14]
-//@   ensures[C05,C16 iff] err == nil <==> verifiedBy(nodeInfo, req)
+//@   ensures[C05,C16,C02 iff] err == nil <==> verifiedBy(nodeInfo, req)
 
 //@ func tls.GenerateServerCertificates
 //@   let byNodeId = req.NodeId != "" && implements(storage, "nodeenrollment.NodeIdLoader")
 //@   nopanic[C05,C14]
-//@   ensures[C05,C13 failclosed] err != nil ==> ret == nil
-//@   ensures[C05 verified] err == nil && !req.SkipVerification ==> len(req.Nonce) != 0 && len(req.NonceSignature) != 0
-//@   ensures[C05 bykeyid] err == nil && !req.SkipVerification && !byNodeId ==>
+//@   ensures[C05,C13,C02,C16 failclosed] err != nil ==> ret == nil
+//@   ensures[C05,C02,C16 verified] err == nil && !req.SkipVerification ==> len(req.Nonce) != 0 && len(req.NonceSignature) != 0
+//@   ensures[C05,C02,C16 bykeyid] err == nil && !req.SkipVerification && !byNodeId ==>
 //@   |   StHas("nodeinfo", keyId(req.CertificatePublicKeyPkix)) && verifiedBy(StGet("nodeinfo", keyId(req.CertificatePublicKeyPkix)), req)
 //@   loop 0 invariant[nodeloop] rangeindex + 1 >= 0
 //@   loop 1 unroll 2
-//@   ensures[C05 bynodeid] err == nil && !req.SkipVerification && byNodeId ==>
+//@   ensures[C05,C02,C16 bynodeid] err == nil && !req.SkipVerification && byNodeId ==>
 //@   |   exists id String :: StHas("nodeinfo", id) && StGet("nodeinfo", id).NodeId == req.NodeId && verifiedBy(StGet("nodeinfo", id), req)
 
 //@ func tls.ServerConfig
